@@ -71,7 +71,7 @@ CHECKS.update({
         "probes": ["long_then_short", "null_after_long", "truncation"],
     },
     "C07": {
-        "variants": ["asan-ts", "asan-nots"], "variant_share": {"asan-ts": 0.6, "asan-nots": 0.4}, "level": "exploration",
+        "variants": ["asan-ts", "asan-nots"], "variant_share": {"asan-ts": 1.0, "asan-nots": 0.4}, "level": "exploration",
         "quick": T(60000, 60), "thorough": T(400000, 600),
         "rule": "one run = a chain, a seeded permutation and a seeded duplication of it, each logged once in the same world; the first 52416 seeds enumerate all chains of <= 3 elements over a 16-spec alphabet (incl. bare argument-taking names and empty elements) x 12 worlds (3 real uids x tty yes/no x listed ancestor yes/no), later seeds draw chains of 0-20 elements from the grammar in generated worlds; "
                 "non-trivial = at least one known filter; distinct = (per-element filter+result string, world class, decision)",
@@ -233,3 +233,7 @@ for _k, _v in _TECH.items():
 for _e in list(NOT_APPLICABLE):
     if _e["property_id"] in CHECKS:
         NOT_APPLICABLE.remove(_e)
+
+CHECKS["C07"]["exhaustive_subspace"] = {"probe": "exhaustive_alphabet", "size": (16 + 256 + 4096) * 12, "what": "all chains of <= 3 elements over the 16-spec alphabet x 12 worlds (seeds 0..52415)"}
+CHECKS["C18"]["exhaustive_subspace"] = {"probe": "exhaustive", "size": 2 * 7381, "what": "absent + all preload files of 0-4 lines over the 9-line alphabet, with and without final newline (seeds 0..14761)"}
+CHECKS["C19"]["exhaustive_subspace"] = {"probe": "exhaustive", "size": 2 * 7381, "what": "same enumeration as C18, operation sequences disable,status,enable,disable / enable,disable"}
